@@ -185,7 +185,7 @@ pub fn build() -> Property {
     Property {
         id: "C01",
         rule: "G_conf streams generated from the protocol grammar (tape-driven, proptest); every stream is run through all five check modes \
-               (in-process one validator per link, and the real CLI with two of {-, -m, -E n, -m -E n}, file or stdin, JSON/TOML stats). \
+               (in-process one validator per link, and the real CLI with two of {-, -m, -E n, -m -E n}, file or stdin, JSON/TOML stats) plus options that must not change the findings (-v 0/2/3, -d, -e 0, a custom-checks file whose keys are absent or agree with the data). \
                Oracle: zero errors everywhere, exit 0. Non-trivial = >=2 packets with payload and one of {interleaved links, HBF >= 3 pages, continuation, \
                no-data run >= 2, CDW, ML/OL frames, padding >= 10, >= 100 packets}; distinct by hash of the encoded bytes.",
         assumptions: vec![
